@@ -1164,6 +1164,20 @@ def entropy_batches(ms, out, ctx, site, what, rhos, d):
                           % (k, fl, what, y.reshape(-1)[k], singles[k], tt), **ctx.detail(rho=arr, got=y, expected=singles, form=fl))
 
 
+def ref_trace_distance(rho, sigma):
+    ev = np.linalg.eigvalsh((np.asarray(rho).astype(np.complex128) - np.asarray(sigma).astype(np.complex128)))
+    return 0.5 * float(np.abs(ev).sum())
+
+
+def pinsker(ms, out, ctx, site, la, lb, ra, rb, r, tol, cls):
+    t = ref_trace_distance(ra, rb)
+    out.trans()
+    if np.isnan(r) or r < 2 * t * t - tol:
+        out.violation('%s/get_relative_entropy%s/below_pinsker_bound/%s' % (site, ms.sfx, cls),
+                      'S(%s||%s) = %.12g is below 2*T^2 = %.12g (reference trace distance %.6g; %s)' % (la, lb, r, 2 * t * t, t, cls),
+                      **ctx.detail(rho=ra, sigma=rb, got=r))
+
+
 def before_table(ms, out, ctx, site, sts, d):
     """all measures on ALL ordered pairs of the input alphabet + the symmetric / range / ket-form invariants of the fidelity"""
     n = len(sts)
@@ -1208,8 +1222,16 @@ def before_table(ms, out, ctx, site, sts, d):
                 if r is not None:
                     R[a, b] = r
                     relative_entropy_options(ms, out, ctx, site, (sts[a]['label'], sts[b]['label']), ra, rb, r, d, True)
+                    pinsker(ms, out, ctx, site, sts[a]['label'], sts[b]['label'], ra, rb, r, tol_R(d, 1.0 / ref_lmin_plus(rb)), 'nested')
             else:
+                # the true value is +inf; the implementation clips the spectrum of sigma at eps and returns a large finite number.
+                # Whatever it returns must still respect Pinsker's inequality S(rho||sigma) >= 2 T(rho,sigma)^2: replacing the zero
+                # eigenvalues of sigma by eps gives a positive operator sigma' of trace 1+k*eps, and S(rho||sigma') >= -log Tr sigma'
+                # + 2 T(rho, sigma'/Tr sigma')^2 >= 2 T^2 - 3*d*eps. (A value near 0 means the kernel of sigma no longer penalises rho.)
                 out.count('outside_math_domain(relative entropy +inf)')
+                r = ms.relative_entropy(ra, rb)
+                if r is not None:
+                    pinsker(ms, out, ctx, site, sts[a]['label'], sts[b]['label'], ra, rb, r, 1e3 * d * EPS, 'supports_not_nested')
     for a in range(n):
         for b in range(a + 1, n):
             if np.isfinite(F[a, b]) and np.isfinite(F[b, a]) and abs(F[a, b] - F[b, a]) > tf:
